@@ -158,7 +158,7 @@ def gen_a(r, klass):
     if klass == "too-many-path-tokens":
         return place_path({r.choice(["path.first.length.dtype", "path.a.b.c", "path.length.first.all"]): pspec_parts})
     if klass == "unknown-part-type":
-        return place_part({"type": r.choice(["foo", "map", "list", "dict_value", "MAP_VALUE", "", "mapvalue", 1, None])})
+        return place_part({"type": r.choice(["foo", "map", "list", "dict_value", "", "mapvalue", 1, None])})
     if klass == "cast-not-mapping":
         return "rule", {"path": pspec_parts, "condition": ls, "cast": r.choice(["int", ["str", "int"], 1, True, [["str", "int"]], "str->int", 2.5])}
     if klass == "doc-items-not-strings":
@@ -167,7 +167,7 @@ def gen_a(r, klass):
         return "rule", {"path": pspec_parts, "condition": ls, "doc": bad}
     if klass in ("unknown-cast-type", "unsupported-cast-pair"):
         if klass == "unknown-cast-type":
-            cast = r.choice([{"foo": "int"}, {"str": "foo"}, {"string": "bool"}, {"str": "integer"}, {"STR": "int"}, {"str": "Bool"}, {1: "int"}, {"str": None}])
+            cast = r.choice([{"foo": "int"}, {"str": "foo"}, {"string": "bool"}, {"str": "integer"}, {1: "int"}, {"str": None}])
         else:
             cast = r.choice([{"str": "str"}, {"int": "str"}, {"bool": "int"}, {"int": "bool"}, {"bool": "str"}, {"int": "int"}])
         return "rule", {"path": pspec_parts, "condition": ls, "cast": cast}
